@@ -282,7 +282,7 @@ pub fn run(ctx: &Ctx) {
     ctx.rule("generated: 1-3 groups of 1-4 juxtaposed '(count unit)' parts (<= 7 parts), groups joined by + or -, counts 0..10^6 biased to carry boundaries (59/60/61, 23/24/25, 6/7/8, 29/30/31, 364/365/366, 11/12/13), every unit spelling of en and tr, optional 'as|to|in|into seconds|minutes|hours|days|weeks' (en); exhaustive table unit x spelling x boundary count x target; oracle: hard-coded unit lengths (60, 3600, 86400, 7 d, 30 d, 365 d, N months = 365*(N div 12)+30*(N mod 12) days), exact integer seconds; printed form parsed back with the language's own words: singular iff count = 1, strictly descending units, parts sum to the magnitude and equal the greedy decomposition; 'as' = floor(|D|/len)*len; non-trivial = >= 2 parts of different units, or a carry-boundary count, or an inexact 'as' quotient");
     ctx.assume("a zero duration prints the empty string (the sum of no parts); negative results print their magnitude; 'as months|years' is outside the statement");
     ctx.run_table(&Durations, "boundary-grid", table(), true);
-    ctx.run_generated(&Durations, ctx.tier.pick(20_000, 800_000), case_strategy);
+    ctx.run_generated(&Durations, ctx.tier.pick(150_000, 1_500_000), case_strategy);
 }
 
 pub fn replay(w: &mut Worker, sub: &str, case: &serde_json::Value) -> Option<Verdict> {
